@@ -10,20 +10,23 @@ program/is_drum — or the same exception.  No bound on sizes.
 Where the Python really reads storage order the hypothesis needed is explicit and decidable (`Proofs/C12B.lean`):
 * `BarAgree`       — all stored time signatures have one (numerator, denominator): `steps_per_bar_in_quantized_sequence`
                      reads `time_signatures[0]` (Melody, DrumTrack, ChordProgression);
-* `ChordTiesAgree` — chord symbols sharing a step *before* `start_step` carry the same text (the last one in sorted
-                     order is the chord in force at `start_step`);
-* `MelTiesAgree`   — selected notes sharing (start step, pitch) share the end step (`ignore_polyphonic_notes` keeps
-                     the first);
+* `ChordTiesAgree` — chord symbols sharing (step, time) *before* `start_step` carry the same text (the sort key is
+                     `(quantized_step, time)`; the last one in sorted order is the chord in force at `start_step`);
+* `MelTiesAgree`   — selected notes sharing (start step, pitch, start time) share the end step (the sort key is
+                     `(quantized_start_step, -pitch, start_time)`; `ignore_polyphonic_notes` keeps the first);
 * `PerfTiesAgree`  — selected notes sharing (start time, pitch) share start step, end step and velocity bin.
 Each is preserved by `NSPerm` (`*.perm`) and shown necessary by the counterexamples at the end (on each of them the real
 Python shows the same dependence).  PianorollSequence and DrumTrack need no tie condition at all.
 Relation to the property's quantifier ("no two same-pitch notes overlap or coincide, no two state events of one kind
 share a time", stated on the *unquantized* sequence): `BarAgree` is what `quantize_note_sequence` enforces
-(`MultipleTimeSignatureError`) and `PerfTiesAgree` follows from it (two notes of one pitch with one start time overlap or
-coincide); `MelTiesAgree` and `ChordTiesAgree` do NOT follow: quantization can put two non-overlapping notes of one pitch
-(resp. two chord symbols at different times) on one step — then Melody extraction with `ignore_polyphonic_notes`
-(resp. ChordProgression extraction from a later `start_step`) really depends on storage order; `exMelTie` / `exChordTie`
-below have exactly that shape. -/
+(`MultipleTimeSignatureError`); `PerfTiesAgree` and `MelTiesAgree` follow from it (two notes of one pitch with one start
+time overlap or coincide) and so does `ChordTiesAgree` (two chord symbols with one time share a time).  Quantization can
+still put two non-overlapping notes of one pitch (resp. two chord symbols at different times) on one step; since the
+third (resp. second) sort-key component is the unquantized time, Melody extraction with `ignore_polyphonic_notes` (resp.
+ChordProgression extraction from a later `start_step`) no longer depends on storage order there: `exMelTie` /
+`exChordTie` below have exactly that shape (they were storage-order dependent under the former keys
+`(step, -pitch)` / `step`) and are now covered by `melody_perm` / `chords_perm` (`exMelTie_order_independent`,
+`exChordTie_order_independent`). -/
 namespace NSV.C12
 open NSV NSV.C07
 
@@ -74,9 +77,9 @@ theorem chords_perm {s s' : NoteSeq} (h : NSPerm s s') (hb : BarAgree s) (startS
           · rw [hs i hi, hs' i hi]
             congr 1
             apply chordAt_perm _ h
-            intro a ha b hb' ka kb hq hle
+            intro a ha b hb' ka kb hq htm hle
             by_cases hlt : a.qstep < startStep
-            · exact ht a ha b hb' ka kb hq hlt
+            · exact ht a ha b hb' ka kb hq htm hlt
             · apply Classical.byContradiction
               intro hne
               exact hc ⟨a, ha, b, hb', ka, kb, hq, by omega, by omega, hne⟩
@@ -181,38 +184,94 @@ example : ¬ BarAgree exTwoSigs ∧ stepsPerBar exTwoSigs = .ok 16 ∧ stepsPerB
     drumsFromQuantized exTwoSigs 20 1 false true ≠ drumsFromQuantized (revAll exTwoSigs) 20 1 false true := by
   decide +kernel
 
-/-- two different chord symbols on step 2, extraction from step 4: the one stored last is in force -/
-def exChordTie : NoteSeq := { exRel with texts := [⟨0, 2, 1, "x43"⟩, ⟨0, 2, 1, "x47"⟩] }
-theorem exChordTie_sorted : chordAnns exChordTie = exChordTie.texts ∧
-    chordAnns (revAll exChordTie) = exChordTie.texts.reverse :=
+/-- two different chord symbols with one (step, time) before the start step: the one stored last is in force.  (Outside
+the property's quantifier — two chord symbols share a time.) -/
+def exChordSame : NoteSeq := { exRel with texts := [⟨1/4, 2, 1, "x43"⟩, ⟨1/4, 2, 1, "x47"⟩] }
+theorem exChordSame_sorted : chordAnns exChordSame = exChordSame.texts ∧
+    chordAnns (revAll exChordSame) = exChordSame.texts.reverse :=
   ⟨List.mergeSort_of_pairwise (by decide +kernel), List.mergeSort_of_pairwise (by decide +kernel)⟩
-example : ¬ ChordTiesAgree exChordTie 4 ∧
-    chordsFromQuantized exChordTie 4 8 ≠ chordsFromQuantized (revAll exChordTie) 4 8 := by
+example : ¬ ChordTiesAgree exChordSame 4 ∧
+    chordsFromQuantized exChordSame 4 8 ≠ chordsFromQuantized (revAll exChordSame) 4 8 := by
   refine ⟨by decide +kernel, ?_⟩
-  have h : stepsPerBar (revAll exChordTie) = .ok 16 ∧ stepsPerBar exChordTie = .ok 16 := by decide +kernel
+  have h : stepsPerBar (revAll exChordSame) = .ok 16 ∧ stepsPerBar exChordSame = .ok 16 := by decide +kernel
   unfold chordsFromQuantized
-  rw [exChordTie_sorted.1, exChordTie_sorted.2, h.1, h.2]
+  rw [exChordSame_sorted.1, exChordSame_sorted.2, h.1, h.2]
   decide +kernel
 /-- … while inside the range both orders raise `CoincidentChordsError` (covered by `chords_perm`) -/
-example : ChordTiesAgree exChordTie 0 ∧ chordsFromQuantized exChordTie 0 8 = .error .coincidentChordsError ∧
-    chordsFromQuantized (revAll exChordTie) 0 8 = .error .coincidentChordsError := by
-  have h : stepsPerBar (revAll exChordTie) = .ok 16 ∧ stepsPerBar exChordTie = .ok 16 := by decide +kernel
+example : ChordTiesAgree exChordSame 0 ∧ chordsFromQuantized exChordSame 0 8 = .error .coincidentChordsError ∧
+    chordsFromQuantized (revAll exChordSame) 0 8 = .error .coincidentChordsError := by
+  have h : stepsPerBar (revAll exChordSame) = .ok 16 ∧ stepsPerBar exChordSame = .ok 16 := by decide +kernel
   unfold chordsFromQuantized
-  rw [exChordTie_sorted.1, exChordTie_sorted.2, h.1, h.2]
+  rw [exChordSame_sorted.1, exChordSame_sorted.2, h.1, h.2]
   decide +kernel
 
-/-- two notes of pitch 60 on step 0 with different ends: `ignore_polyphonic_notes` keeps the one stored first -/
-def exMelTie : NoteSeq := { exRel with notes := [exNote 60 0 1, exNote 60 0 3] }
-example : ¬ MelTiesAgree exMelTie 0 0 true ∧
-    melodyFromQuantized exMelTie 0 0 1 true false true ≠ melodyFromQuantized (revAll exMelTie) 0 0 1 true false true := by
+/-- two notes of pitch 60 with one start time on step 0 with different ends: `ignore_polyphonic_notes` keeps the one
+stored first.  (Outside the property's quantifier — two notes of one pitch coincide at their start.) -/
+def exMelSame : NoteSeq := { exRel with notes := [exNote 60 0 1, exNote 60 0 3] }
+example : ¬ MelTiesAgree exMelSame 0 0 true ∧
+    melodyFromQuantized exMelSame 0 0 1 true false true ≠ melodyFromQuantized (revAll exMelSame) 0 0 1 true false true := by
   refine ⟨by decide +kernel, ?_⟩
-  have h : stepsPerBar (revAll exMelTie) = .ok 16 ∧ stepsPerBar exMelTie = .ok 16 := by decide +kernel
-  have h1 : (exMelTie.notes.filter (melSel 0 0 true)).mergeSort melLe = exMelTie.notes :=
+  have h : stepsPerBar (revAll exMelSame) = .ok 16 ∧ stepsPerBar exMelSame = .ok 16 := by decide +kernel
+  have h1 : (exMelSame.notes.filter (melSel 0 0 true)).mergeSort melLe = exMelSame.notes :=
     List.mergeSort_of_pairwise (by decide +kernel)
-  have h2 : ((revAll exMelTie).notes.filter (melSel 0 0 true)).mergeSort melLe = exMelTie.notes.reverse :=
+  have h2 : ((revAll exMelSame).notes.filter (melSel 0 0 true)).mergeSort melLe = exMelSame.notes.reverse :=
     List.mergeSort_of_pairwise (by decide +kernel)
   unfold melodyFromQuantized
   rw [h1, h2, h.1, h.2]
+  decide +kernel
+
+/-! ## The former counterexamples (F-C12-3 / F-C12-4 shapes) no longer depend on storage order -/
+
+/-- chord symbols 'C' at 0.25 s and 'G7' at 0.26 s both quantize to step 2 (4 steps per quarter, 120 qpm); a
+progression extracted over `[4, 8)`.  Under the former sort key `quantized_step` the chord in force at step 4 was
+the one stored last. -/
+def exChordTie : NoteSeq := { exRel with texts := [⟨1/4, 2, 1, "x43"⟩, ⟨13/50, 2, 1, "x47"⟩] }
+
+/-- both storage orders are sorted into time order: the chord at 0.26 s comes last -/
+theorem exChordTie_sorted : chordAnns exChordTie = exChordTie.texts ∧
+    chordAnns (revAll exChordTie) = exChordTie.texts := by
+  have h1 : chordAnns exChordTie = exChordTie.texts := List.mergeSort_of_pairwise (by decide +kernel)
+  refine ⟨h1, ?_⟩
+  have hp : (chordAnns (revAll exChordTie)).Perm (chordAnns exChordTie) := by
+    unfold chordAnns
+    exact ((List.mergeSort_perm _ _).trans (((nsperm_revAll exChordTie).texts.filter _).symm)).trans
+      (List.mergeSort_perm _ _).symm
+  rw [← h1]
+  refine List.Perm.eq_of_pairwise ?_ (chordAnns_sorted _) (chordAnns_sorted _) hp
+  intro a b ha hb hab hba
+  rw [h1] at hb
+  rw [hp.mem_iff, h1] at ha
+  simp only [exChordTie, List.mem_cons, List.not_mem_nil, or_false] at ha hb
+  rcases ha with rfl | rfl <;> rcases hb with rfl | rfl <;> first | rfl | (exfalso; revert hab hba; unfold ChordOrd; decide +kernel)
+
+/-- `ChordTiesAgree` holds (the two symbols differ in time), so `chords_perm` applies: the progression over `[4, 8)`
+is the same for the two storage orders, and it is the later chord (`G7`, hex `x47`) on all four steps -/
+theorem exChordTie_order_independent : revAll exChordTie ≠ exChordTie ∧ ChordTiesAgree exChordTie 4 ∧
+    chordsFromQuantized exChordTie 4 8 = chordsFromQuantized (revAll exChordTie) 4 8 ∧
+    (chordsFromQuantized exChordTie 4 8).toOption.map (·.events) = some ["x47", "x47", "x47", "x47"] := by
+  refine ⟨by decide +kernel, by decide +kernel, chords_perm (nsperm_revAll exChordTie) (by decide) 4 8 (by decide +kernel), ?_⟩
+  have h : stepsPerBar exChordTie = .ok 16 := by decide +kernel
+  unfold chordsFromQuantized
+  rw [exChordTie_sorted.1, h]
+  decide +kernel
+
+/-- notes of pitch 60 at 0.0–0.05 s and 0.06–0.4 s: they do not overlap, both start on step 0, they end on steps 1
+and 3.  Under the former sort key `(step, -pitch)`, `ignore_polyphonic_notes` kept whichever was stored first
+(`[60]` vs `[60, -2, -2]`). -/
+def exMelTie : NoteSeq := { exRel with notes := [exNote 60 0 1 100 0 false 0, exNote 60 0 3 100 0 false (3/50)] }
+
+/-- `MelTiesAgree` holds (the two notes differ in start time), so `melody_perm` applies: the melody is the same for
+the two storage orders, and it keeps the note that starts first (`[60]`) -/
+theorem exMelTie_order_independent : revAll exMelTie ≠ exMelTie ∧ MelTiesAgree exMelTie 0 0 true ∧
+    melodyFromQuantized exMelTie 0 0 1 true false true = melodyFromQuantized (revAll exMelTie) 0 0 1 true false true ∧
+    (melodyFromQuantized exMelTie 0 0 1 true false true).toOption.map (·.events) = some [60] := by
+  refine ⟨by decide +kernel, by decide +kernel,
+    melody_perm (nsperm_revAll exMelTie) (by decide) 0 0 1 true false true (by decide +kernel), ?_⟩
+  have h : stepsPerBar exMelTie = .ok 16 := by decide +kernel
+  have h1 : (exMelTie.notes.filter (melSel 0 0 true)).mergeSort melLe = exMelTie.notes :=
+    List.mergeSort_of_pairwise (by decide +kernel)
+  unfold melodyFromQuantized
+  rw [h1, h]
   decide +kernel
 
 /-- two notes with one start time and pitch but different velocity bins: the VELOCITY events come in storage order -/
